@@ -164,6 +164,23 @@ func genC04(g *h.G) {
 			}
 		}
 	}
+	// (b') every registered primitive / generic combinator instantiation whose TL-B type is fixed by its Go name
+	// (Maybe[X], Either[X,Y], EitherRef[X], Ref[X] over primitives; the probe instantiations of X1 stage i)
+	for _, tt := range tlbTypes {
+		if tt.Class != "model" || tt.D.Kind == tlbx.KUint || tt.D.Kind == tlbx.KInt || tt.D.Kind == tlbx.KBytes {
+			continue
+		}
+		st, ok := tt.D.SpecText()
+		if !ok {
+			continue
+		}
+		for i := 0; i < g.Scale(40, 600); i++ {
+			v := reflect.New(tt.T).Elem()
+			gc.Gen(tt.D, v, "p")
+			g.Emit("tlb.spec", tt.Name, st, tlbx.Print(v))
+			g.Count("spec_combinator:" + tt.Name)
+		}
+	}
 	// (c) the external-message envelope built by ton.CreateExternalMessage
 	siT := tlbLookup("tlb.StateInit")
 	for i := 0; i < g.Scale(200, 3000); i++ {
